@@ -22,3 +22,5 @@ open RV.C18
 #print axioms conjunctive_context_broke_rollback
 #print axioms handed_out_graphs_log
 #print axioms bypass_breaks_rollback
+#print axioms every_source_hands_out_wrapper_graphs
+#print axioms update_history_refines_spec
